@@ -44,7 +44,9 @@ theorem wiring_consistent : listeners.all consistent = true := by decide +kernel
 
 /-- EVERY listener: takes exactly one state from the pool, defers putState before the first use of the state, and enters
     Lua only through a protected CallByParam — so a Lua error (or a Go panic inside a binding) cannot unwind the session;
-    and there is no other Lua entry point in the package -/
+    and there is no other Lua entry point in the package.  `callByParamSites` counts a CallByParam call site once per
+    listener whose inlined paths go through it (a helper shared by two listeners is two entries) and once when no listener
+    reaches it, so `= listeners.length` says: one site per listener, none elsewhere -/
 theorem every_call_protected :
     (∀ l ∈ listeners, l.protect = true ∧ l.deferPut = true ∧ l.gets = 1 ∧ l.puts = 1) ∧
     unprotectedCalls = [] ∧ listeners.length = 5 ∧ callByParamSites = 5 := by decide +kernel
